@@ -24,6 +24,8 @@ struct proc {
   int64_t D; /* absolute deadline or NOD */
 };
 
+static int dl_ms(int nominal) { return nominal == INT_MAX || nominal == 0 ? nominal : nominal * hx_time_scale; }
+
 static int find_exit_fd(struct vk_child *c)
 {
   for (int i = 0; i < c->hello.nfd; i++) {
@@ -173,11 +175,13 @@ static void c08_wait_cfg(int ti, int di, int ci, int tier)
   snprintf(key8, sizeof key8, "h_c08|wait|timeout=%s|deadline=%s%s", timeout == -1 ? "infinite" : timeout == -2 ? "until-deadline" : "finite", deadline ? "set" : "none", ci >= 3 ? "|fork-mode" : "");
   hx_begin();
   vk_set_hang_hook(c08_hang);
+  vk_autonomous_gap_ms = 500;
+  S->free_run_ok = ci < 3; /* not the fork-mode children: their library steps are stepped by the explorer */
   g_kind8 = 0;
   struct proc q;
   reproc_options o;
   memset(&o, 0, sizeof o);
-  o.deadline = deadline;
+  o.deadline = dl_ms(deadline);
   if (ci >= 3) proc_start_fork(&q, "", o, ci == 3);
   else proc_start(&q, ci == 1 ? "X4" : "", o);
   for (int round = 0; round < (ci == 2 || ci >= 3 ? 2 : 1); round++) {
@@ -301,6 +305,12 @@ static void check_poll(struct proc *procs, int n, const int *kinds, reproc_event
   vk_hit(CL8_POLL_EVENT);
 }
 
+static int have_expired_kind(const int *kinds, int n)
+{
+  for (int i = 0; i < n; i++) if (kinds[i] == SK_EXPIRED) return 1;
+  return 0;
+}
+
 static void c08_poll_cfg(int n, const int *kinds, int ii, int ti, int ce)
 {
   memset(&vk_cfg, 0, sizeof vk_cfg);
@@ -323,6 +333,19 @@ static void c08_poll_cfg(int n, const int *kinds, int ii, int ti, int ce)
   snprintf(key8, sizeof key8, "h_c08|poll|sources=%d|timeout=%s", n, timeout < 0 ? "infinite" : "finite");
   hx_begin();
   vk_set_hang_hook(c08_hang);
+  {
+    /* comparable with a free run unless two children race for who acts first while the poll waits without timeout */
+    int nreal = 0;
+    for (int i = 0; i < n; i++) nreal += kinds[i] != SK_NULL;
+    S->free_run_ok = !(nreal >= 2 && ce != CE_IDLE && timeout < 0);
+    /* exact ties between the timeout and a deadline exist on the virtual clock only */
+    for (int i = 0; i < n; i++) {
+      if (kinds[i] < SK_D1 || kinds[i] > SK_D3 || timeout <= 0) continue;
+      int left = kinds[i] - SK_D1 + 1 - (have_expired_kind(kinds, n) ? 1 : 0); /* nominal ms until this deadline when the first poll starts */
+      if (left == timeout || left == 2 * timeout) S->free_run_ok = 0;          /* a tie in the first or in the second poll */
+    }
+    vk_autonomous_gap_ms = 500;
+  }
   g_kind8 = 1;
   struct proc procs[3];
   memset(procs, 0, sizeof procs);
@@ -331,13 +354,13 @@ static void c08_poll_cfg(int n, const int *kinds, int ii, int ti, int ce)
     if (kinds[i] == SK_NULL) continue;
     reproc_options o;
     memset(&o, 0, sizeof o);
-    o.deadline = kinds[i] == SK_NODL ? 0 : kinds[i] == SK_EXPIRED ? 1 : kinds[i] - SK_D1 + 1;
+    o.deadline = dl_ms(kinds[i] == SK_NODL ? 0 : kinds[i] == SK_EXPIRED ? 1 : kinds[i] - SK_D1 + 1);
     if (kinds[i] == SK_EXPIRED) have_expired = 1;
     proc_start(&procs[i], ce == CE_OUTPUT ? "W1:1" : ce == CE_EXIT ? "X0" : "", o);
   }
   /* all deadlines count from the same instant; an "expired" one is 1 ms and we let 1 ms pass */
   if (have_expired) {
-    vk_advance(1);
+    vk_advance(1 * hx_time_scale);
     for (int i = 0; i < n; i++)
       if (kinds[i] >= SK_D1 && kinds[i] <= SK_D3) procs[i].D += 0; /* unchanged: deadlines are absolute */
   }
@@ -700,5 +723,5 @@ static void c09_run(int tier, long cfg)
   for (int i = 0; i < 3; i++) proc_end(&procs[i]);
 }
 
-const struct hx_harness h_c08 = { "C08", "h_c08", c08_n, c08_run, c08_clauses, NULL };
+const struct hx_harness h_c08 = { "C08", "h_c08", c08_n, c08_run, c08_clauses, NULL, 0, { 0, 0 }, 0, 5 };
 const struct hx_harness h_c09 = { "C09", "h_c09", c09_n, c09_run, c09_clauses, NULL };
